@@ -1,3 +1,5 @@
+//go:build verif_c20
+
 package main
 
 // C20 — reference codecs. Transcript ops (see lean/XlModel/Drv/C20.lean):
